@@ -464,6 +464,7 @@ func PublishContext[T any](bus *EventBus, ctx context.Context, event T) {
 
 				// Sequential async handlers process events in publish order
 				if handler.sequential {
+					verifYield("async.turn", handler, spawnID)
 					handler.awaitTurn(ticket)
 					defer handler.releaseTurn()
 				}
@@ -594,6 +595,7 @@ func callHandlerWithContext[T any](h *internalHandler, ctx context.Context, even
 
 	// Sequential handlers need locking
 	if h.sequential {
+		verifYield("handler.lock", h, 0)
 		h.mu.Lock()
 		defer h.mu.Unlock()
 	}
